@@ -100,7 +100,7 @@ Lemma tx_rules :
     (forall a k, as_slot (tx_initial_sets tx) a k = al_slot (tw_al tx) a k) /\
     (forall a, a <> tw_sender tx -> a <> tw_dest tx -> is_precompile (tw_spec tx) a = false ->
                (enabled (tw_spec tx) SHANGHAI = true -> a <> tw_coinbase tx) ->
-               (prague tx = true -> a <> HISTORY_STORAGE_ADDRESS /\ ~ In a (fst (tx_after_auths tx)) /\
+               (prague tx = true -> ~ In a (fst (tx_after_auths tx)) /\
                                     deleg_of tx (tw_dest tx) <> Some a) ->
                al_acc (tw_al tx) a = false -> as_acc (tx_initial_sets tx) a = false).
 Proof.
@@ -119,8 +119,7 @@ Proof.
   { destruct (enabled (tw_spec tx) SHANGHAI); [|reflexivity]. cbn [andb]. apply Z.eqb_neq. auto. }
   rewrite E1. cbn [orb].
   destruct (prague tx) eqn:P; [|reflexivity]. cbn [andb].
-  destruct (Hpr eq_refl) as (H1 & H2 & H3).
-  apply Z.eqb_neq in H1. rewrite H1. cbn [orb].
+  destruct (Hpr eq_refl) as (H2 & H3).
   assert (mem_z (fst (tx_after_auths tx)) a = false) as E2.
   { destruct (mem_z (fst (tx_after_auths tx)) a) eqn:M; [|reflexivity]. apply mem_z_In in M. contradiction. }
   rewrite E2. cbn [orb].
